@@ -138,6 +138,9 @@ impl Ctx {
     /// a misbehaving accessor, keyed by the accessor and the mutators applied before it
     fn bad(&mut self, class: &str, name: &str, what: String) {
         let (m1, m2) = (self.m1.clone(), self.m2.clone());
+        if !m1.is_empty() && self.seen.contains(&(String::new(), name.to_string())) {
+            return; // already misbehaves on the plain input: the mutator adds nothing
+        }
         if m2.is_empty() {
             self.seen.insert((m1.clone(), name.to_string()));
         } else if self.seen.contains(&(String::new(), name.to_string()))
